@@ -106,9 +106,9 @@ func havocResult(hint string) modelFn {
 func (e *Engine) abstractHandle(st *State, t types.Type, name string) (Value, bool) {
 	switch {
 	case typeIsPkg(t, "database/sql", "Tx"):
-		return VAbs{Kind: "tx", ID: e.nextID(), Data: name}, true
+		return VAbs{Kind: "tx", ID: e.namedID("tx:" + name), Data: name}, true
 	case typeIsPkg(t, "database/sql", "DB"):
-		return VAbs{Kind: "pool", ID: e.nextID(), Data: name}, true
+		return VAbs{Kind: "pool", ID: e.namedID("pool:" + name), Data: name}, true
 	case typeIsPkg(t, "sync", "Mutex"):
 		if _, isPtr := t.(*types.Pointer); isPtr {
 			cell := e.namedCell(st, name, VStruct{})
@@ -119,7 +119,7 @@ func (e *Engine) abstractHandle(st *State, t types.Type, name string) (Value, bo
 		if _, isPtr := t.(*types.Pointer); isPtr {
 			// nil-able timer: symbolic "is nil" flag
 			isnil := st.declare("in."+sanitize(name)+".isnil", SBool)
-			return VAbs{Kind: "timer", ID: e.nextID(), Data: &TimerObj{Name: name, NilT: isnil}}, true
+			return VAbs{Kind: "timer", ID: e.namedID("timer:" + name), Data: &TimerObj{Name: name, NilT: isnil}}, true
 		}
 	case typeIsPkg(t, "container/list", "List"):
 		if _, isPtr := t.(*types.Pointer); isPtr {
@@ -127,7 +127,7 @@ func (e *Engine) abstractHandle(st *State, t types.Type, name string) (Value, bo
 			seq := st.declare("in."+sanitize(name)+".seq", SEvSeq)
 			ln := st.declare("in."+sanitize(name)+".len", SInt)
 			st.assume(Ge(ln, IntLit(0)))
-			cell := e.newCell(st, &ListObj{Seq: seq, Len: ln, NilT: isnil})
+			cell := e.namedCell(st, "list:"+name, &ListObj{Seq: seq, Len: ln, NilT: isnil})
 			return VAbs{Kind: "list", ID: cell}, true
 		}
 	case typeIsPkg(t, "sync", "Cond"):
@@ -147,7 +147,7 @@ func (e *Engine) abstractHandle(st *State, t types.Type, name string) (Value, bo
 			return VPtr{Cell: cell}, true
 		}
 	case typeIsPkg(t, "context", "Context"):
-		return VAbs{Kind: "ctx", ID: e.nextID()}, true
+		return VAbs{Kind: "ctx", ID: e.namedID("ctx:" + name)}, true
 	}
 	return nil, false
 }
@@ -163,6 +163,17 @@ type ListObj struct {
 	Seq  Term // (Array Int FeedEv): index 0 = back (oldest) ... Len-1 = front (newest)
 	Len  Term
 	NilT Term
+}
+
+// namedID: a stable identity for an input object that is not stored in the heap.
+func (e *Engine) namedID(name string) int {
+	id, ok := e.lazyCells[name]
+	if !ok {
+		e.nextCell++
+		id = e.nextCell
+		e.lazyCells[name] = id
+	}
+	return id
 }
 
 // namedCell returns the heap cell of an input object identified by its access path (same cell in every state).
